@@ -34,6 +34,10 @@ def run(res, prop, extra_lines=None, extra_oracle=None, n_quick=150, n_thorough=
     if extra_oracle:
         extra = extra_oracle(run_)
         fails = extra.get("violations", []) + fails
+    # fixed scenarios outside the script DSL (symlinks, sub-directories, copies of the tree, ...)
+    import scenarios
+    fixed = scenarios.run(prop, run_["bindir"])
+    fails = fixed["violations"] + fails
     searched = None
     if run_["disagreements"] and not fails:
         # the tie broke: look for a concrete history on which the PROPERTY fails on the implementation
@@ -48,9 +52,12 @@ def run(res, prop, extra_lines=None, extra_oracle=None, n_quick=150, n_thorough=
     if extra:
         cov["extra"] = {k: v for k, v in extra.items() if k != "violations"}
         cov["evaluations"] += extra.get("evaluations", 0)
+    cov["fixed_scenarios"] = fixed["scenarios"]
+    cov["evaluations"] += fixed["evaluations"]
     # recorded findings (KNOWN_FINDINGS): reported as such, never as violations; anything else is a violation
     kn, _ = common.known_findings()
     listed = {k["cls"]: k["what"] for k in kn}     # a recorded behaviour is the same finding whichever property's histories meet it
+    listed.update({k["cls"]: k["what"] for k in kn if k["property"] == prop})
     unlisted = []
     for f in fails:
         cls = f.get("known_class")
